@@ -70,6 +70,19 @@ func (w *World) Apply(a Action) {
 		w.Holds = nil
 	case "sync":
 		w.sync(a.Node, a.N, a.H)
+	case "catchup": // a block-sync service: every live correct node in Mask that is behind gets the block+proof of its current height from a correct node that committed it
+		for i := 0; i < w.Cfg.N && w.Viol == nil; i++ {
+			if a.Mask>>uint(i)&1 == 0 || !w.IsCorrect(i) || w.Nodes[i].Crashed {
+				continue
+			}
+			h := w.Nodes[i].H()
+			for _, src := range w.CorrectLive() {
+				if src != i && w.Nodes[src].committedAt(h) {
+					w.sync(i, src, h)
+					break
+				}
+			}
+		}
 	case "byz":
 		if a.Byz != nil {
 			w.Adv.Do(a.Byz)
@@ -84,6 +97,15 @@ func (w *World) Apply(a Action) {
 			w.deliver(m)
 		}
 	}
+}
+
+func (n *Node) committedAt(h uint64) bool {
+	for _, c := range n.Commits {
+		if c.H == h {
+			return true
+		}
+	}
+	return false
 }
 
 // RunCase replays a whole case from scratch.
